@@ -171,9 +171,10 @@ func spec_bare(name string) string { return gengotypes.Spec_bare(name) }
 //@   ensures forall p string :: old(has(n.tracker.Imports(), p)) ==> has(n.tracker.Imports(), p) && n.tracker.Imports()[p] == old(n.tracker.Imports()[p])
 //@   ensures forall p string :: has(n.tracker.Imports(), p) && !old(has(n.tracker.Imports(), p)) ==> p != n.pkgPath && p != ""
 //@   panics true
-//@   loop 1 assume forall i int :: 0 <= i && i < len(ys1) ==> ys1[i] != nil
-//@   note (loop 1 assume) TypeRef trees built by ParseTypeRef contain no nil node
+//@   loop 1 assume forall i int :: 0 <= i && i < len(ys1) ==> ys1[i] != nil && !existed(ys1[i])
+//@   note (loop 1 assume) TypeRef trees built by ParseTypeRef contain no nil node and consist of freshly allocated nodes only (ParseTypeRef's contract proves this for the root)
 //@   loop 1 invariant n.tracker == old(n.tracker) && n.pkgPath == old(n.pkgPath)
+//@   loop 1 invariant forall r *gengotypes.TypeRef :: existed(r) ==> r.PkgPath == old(r.PkgPath)
 //@   loop 1 invariant forall p string :: old(has(n.tracker.Imports(), p)) ==> has(n.tracker.Imports(), p) && n.tracker.Imports()[p] == old(n.tracker.Imports()[p])
 //@   loop 1 invariant forall p string :: has(n.tracker.Imports(), p) && !old(has(n.tracker.Imports(), p)) ==> p != n.pkgPath && p != ""
 //@   note a plain name registers nothing and comes back bare; for an instantiated name (brackets) every package it registers is a FOREIGN, non-empty nested package path - the file's own package is never imported - and no bound name changes. That exactly the nested paths are registered and the text is otherwise unchanged is only checked by the bounded probe (the TypeRef tree is a recursive heap structure). The code panics if ParseTypeRef rejects the name.
